@@ -72,4 +72,45 @@ def handle (id : Nat) (hdr : List Sexp) (body : List Sexp) : String :=
     | _, _ => s!"R {id} CORR=diff SPEC=ok SPECM=ok | unparsable cfg/tops"
   | _ => s!"R {id} CORR=diff SPEC=ok SPECM=ok | unparsable header"
 
+/-- split the body of a `core20` case at `(sep)` -/
+def splitSep (l : List Sexp) (acc : List Sexp := []) : List Sexp × List Sexp :=
+  match l with
+  | [] => (acc.reverse, [])
+  | .list [.atom "sep"] :: rest => (acc.reverse, rest)
+  | x :: rest => splitSep rest (x :: acc)
+
+/-- mode `core20` (C20): trace under default options, `(sep)`, trace under debug options -/
+def handle20 (id : Nat) (hdr : List Sexp) (body : List Sexp) : String :=
+  match hdr with
+  | [.atom _, c, t] =>
+    match cfg? c, tops? t with
+    | some cfg, some tops =>
+      let (b0, b1) := splitSep body
+      let impl0 := b0.map event?
+      let impl1 := b1.map event?
+      -- the model under the options' configuration (KEEP_DEPENDENCIES) and under the default configuration
+      let s1 := runFuel (200 * impl1.length + 100000) (initState cfg tops (choicesOf impl1))
+      let s0 := runFuel (200 * impl0.length + 100000) (initState { cfg with keepDeps := false } tops (choicesOf impl0))
+      let m1 := s1.trace.reverse
+      let m0 := s0.trace.reverse
+      -- KEEP_DEPENDENCIES keeps the items of flushed batches: the item counts of flushed batches in the pending
+      -- snapshot are diagnostic residue, not behaviour
+      let norm (e : Event) : Event := match e with
+        | .flushB k q its p pend => .flushB k q its p ((pend.filter fun x => !x.flushed))
+        | .sched same n _ live a => .sched same n 0 live a
+        | e => e
+      let stuck := match s1.stuck with | some m => s!" model-stuck: {m}" | none => (if s1.isDone then "" else " model-out-of-fuel")
+      let corr := firstDiff (m1.map norm) (impl1.map norm)
+      let cstr := match corr with | none => (if stuck.isEmpty then "ok" else "diff") | some _ => "diff"
+      let d := match corr with | none => stuck | some (i, msg) => s!"event {i}: {msg}{stuck}"
+      let sp := match firstDiff (impl0.map norm) (impl1.map norm) with
+        | none => ("ok", "")
+        | some (i, msg) => ("fail:behaviour-changes-under-debug-options", s!" spec: event {i}: default(model=)/options(impl=): {msg}")
+      let spm := match firstDiff (m0.map norm) (m1.map norm) with
+        | none => "ok"
+        | some _ => "fail:behaviour-changes-under-debug-options"
+      s!"R {id} CORR={cstr} SPEC={sp.1} SPECM={spm} | {d}{sp.2}"
+    | _, _ => s!"R {id} CORR=diff SPEC=ok SPECM=ok | unparsable cfg/tops"
+  | _ => s!"R {id} CORR=diff SPEC=ok SPECM=ok | unparsable header"
+
 end AsynqModel.Drv.Core
